@@ -114,6 +114,18 @@ def run(ctx):
             else:
                 ck.ob("C03-R1", mh.path, "group-insertion-idiom:%s" % m, False, site=e.span, detail="only HashMap::insert of a new group and Vec::push onto an existing one keep source order")
     ck.ob("C03-R1", mh.path, "one-grouping-loop", group_loops == 1, detail="%d" % group_loops)
+    # nothing else touches a group: its order IS the precedence of the mappings in it, so a sort, a dedup, a reverse, a
+    # removal -- in the loop or after it -- changes which mapping fires
+    ALLOWED = {"insert", "push", "get_mut", "get", "entry", "or_insert_with", "or_default", "or_insert", "next", "next_back", "into_iter", "iter", "clone", "new", "with_capacity",
+               "deref", "deref_mut", "index", "len", "contains", "is_empty", "unwrap", "expect", "all", "any"}
+    levels = [mir.walk_function(mh)] + [mir.walk_loop_only(mh, h) for h in sorted(mh.loops())]
+    odd = []
+    for paths in levels:
+        for p in paths:
+            for e in p.events:
+                if e.kind == "call" and e.d and method_name(e.a) not in ALLOWED and not e.a.startswith(MOD) and ("Vec" in e.a or "HashMap" in e.a or "slice" in e.a or "VecDeque" in e.a):
+                    odd.append(method_name(e.a))
+    ck.ob("C03-R1", mh.path, "groups-are-only-appended-to(no-sort,dedup,reverse,removal)", not odd, detail=None if not odd else "also called: %s" % sorted(set(odd)))
 
     # ---------------- R2 selection
     np_ = ctx.body(NP)
